@@ -105,9 +105,9 @@ Probe(id) ==
   /\ Log([op |-> "probe", type |-> "", raw |-> "", from |-> 0, ps |-> <<>>, probe |-> id, res |-> Split(ProbeBytes(id)) @@ [input |-> ProbeBytes(id)],
           rawb |-> <<>>, args |-> <<>>])
 
-Next == \/ \E t \in Types, r \in RawIds \cup {""}, a \in ArgSeqs : Can /\ New(t, r, SeqOf(a))
-        \/ \E i \in 1..Len(kbs), a \in ArgSeqs : Can /\ Len(a) > 0 /\ AppendTo(i, SeqOf(a))
-        \/ \E id \in ProbeIds : Can /\ Probe(id)
+Next == \/ Can /\ \E t \in Types, r \in RawIds \cup {""}, a \in ArgSeqs : New(t, r, SeqOf(a))
+        \/ Can /\ \E i \in 1..Len(kbs), a \in ArgSeqs : Len(a) > 0 /\ AppendTo(i, SeqOf(a))
+        \/ Can /\ \E id \in ProbeIds : Probe(id)
 Spec == Init /\ [][Next]_vars
 
 ----------------------------------------------------------------------------
